@@ -377,6 +377,10 @@ func c02Run1(c *fw.Ctx) {
 		depth, alpha = 4, c02Alphabet
 	}
 	n = len(alpha)
+	if c.Shard == 0 {
+		c.Extra("depth_bound_completed", int64(depth))
+		c.Extra("alphabet_size", int64(n))
+	}
 	// deep adversary-only tree (cheap: no successful SRP exchange in it)
 	dd := 5
 	if c.Thorough() {
